@@ -120,6 +120,17 @@ def specIter (rs : List (Graph × Graph × Trace)) (out : List Canon) : Bool :=
   ((rs.filter fun (r : Graph × Graph × Trace) => sideOk r.1).foldl (fun (acc : Option (List (List String × List (List Int)))) (r : Graph × Graph × Trace) =>
       acc.bind (takeOut (sigOfTrace r.2.2))) (some sigs)).isSome
 
+/-- the conservation clause of the property at the `iter(Proxy)` level, UNCONDITIONALLY: every trace of the
+    model enumeration — whether or not its `build_graphs` result carries parallel bonds — is matched by a
+    distinct sample with exactly its symbols and exactly its bond labels (multisets).  This is what the
+    property states; it is false for configurations that create parallel bonds (known finding K7: the
+    MultiGraph→Graph collapse in `Proxy.__generate` drops them), where `specIter` (side condition) still holds. -/
+def specIterAll (rs : List (Graph × Graph × Trace)) (out : List Canon) : Bool :=
+  -- a perfect matching of traces and samples with equal signatures = equality of the two multisets of
+  -- signatures (compared as sorted lists, as `specBuild` does)
+  out.length == rs.length &&
+  ((out.map sigOfCanon).mergeSort sigLe) == ((rs.map fun (r : Graph × Graph × Trace) => sigOfTrace r.2.2).mergeSort sigLe)
+
 def refTable (t : List (String × String × List (String × List Nat × List (List String)))) : RefConfig :=
   t.map fun g => (g.1, g.2.2.map (·.2.2))
 
@@ -177,16 +188,24 @@ def handle : List SExp → Option SExp
       let okOne := fun (c : Canon) =>
         (c.nodes.find? fun p => isGroupNode cfg p.2).isNone && contiguousIds (c.nodes.map (·.1)) &&
         (!aam || c.nodes.all fun p => p.2.aam == some (p.1 + 1))
-      let specImpl ← match rest with
-        | [.list [.atom "raised", .atom k]] => pure (ofBool (match res with
-            | .error e => toString (ofErr e) == toString (SExp.list [.atom "raised", .atom k])
-            | .ok _ => false))
+      -- `specImpl`: the property as stated — count, shape, and bond conservation for ALL samples (`specIterAll`);
+      -- `relaxedImpl`: the same with bond conservation only under the side condition `sideOk` (what the theorems
+      -- prove of the model); the harness classifies `specImpl = 0 ∧ relaxedImpl = 1 ∧ nSideFail > 0 ∧
+      -- implementation == model` as known finding K7 and everything else with `specImpl = 0` as a violation
+      let (specImpl, relaxedImpl) ← match rest with
+        | [.list [.atom "raised", .atom k]] =>
+            let b := ofBool (match res with
+              | .error e => toString (ofErr e) == toString (SExp.list [.atom "raised", .atom k])
+              | .ok _ => false)
+            pure (b, b)
         | [impl] => do
             let out ← asList asCanon impl
-            pure (ofBool (match res, resT with
-              | .ok _, .ok rs => out.length == totalExp cfg cores && out.all okOne && specIter rs out
-              | _, _ => false))
-        | _ => pure none'
+            pure (match res, resT with
+              | .ok _, .ok rs =>
+                  let base := out.length == totalExp cfg cores && out.all okOne
+                  (ofBool (base && specIter rs out && specIterAll rs out), ofBool (base && specIter rs out))
+              | _, _ => (ofBool false, ofBool false))
+        | _ => pure (none', none')
       -- the traced enumeration: projection = plain enumeration; every sample conserved (symbols always, bonds
       -- under the side condition); the model's own samples pass the check applied to the implementation's
       let specModel := match res, resT with
@@ -197,7 +216,7 @@ def handle : List SExp → Option SExp
       let nRes := match resT with | .ok rs => rs.length | .error _ => 0
       let nSideFail := match resT with | .ok rs => (rs.filter fun r => !sideOk r.1).length | .error _ => 0
       pure (.list [.atom "ok", model, ofBool specModel, specImpl, ofNat (totalExp cfg cores),
-                   ofNat nRes, ofNat nSideFail])
+                   ofNat nRes, ofNat nSideFail, relaxedImpl])
   -- the generated table of a shipped collection against the configuration the harness extracted
   | .atom "table" :: .atom which :: cfg :: cores :: _ => do
       let cfg ← asConfig cfg
@@ -221,8 +240,14 @@ def handle : List SExp → Option SExp
           match buildGraphsT cfg fuelMax core with
           | .ok ts => ts.all conservedB
           | .error _ => false
+        -- number of `build_graphs` results with parallel bonds (side condition of bond conservation at the
+        -- `iter(Proxy)` level fails: the collapse drops bonds — known finding K7 when the implementation equals the model)
+        let nSideFail := cores.foldl (fun acc core =>
+          match buildGraphsT cfg fuelMax core with
+          | .ok ts => acc + (ts.filter fun gt => !sideOk gt.1).length
+          | .error _ => acc) 0
         pure (.list [.atom "ok", ofList (fun g => fingerprint (canonGraph g)) gs, ofBool true, none',
-                     ofNat gs.length, ofBool conserved])
+                     ofNat gs.length, ofBool conserved, ofNat nSideFail])
   -- per-result checks on implementation outputs (canonical forms), thorough tier
   | .atom "check_results" :: cfg :: aam :: outs :: _ => do
       let cfg ← asConfig cfg
